@@ -4,6 +4,7 @@ mod host;
 mod machine;
 mod ctl_io;
 mod input;
-mod sna;
+pub mod sna;
 mod memory;
 mod audio;
+mod loaders;
